@@ -55,7 +55,7 @@ def signature(recs, k, mon):
 
 
 def run_topic_check(ctx, prop, *, kinds, want, given, maxseq, u1_quick, u1_thorough, sim_quick, sim_thorough,
-                    extra_props=(), nusers=3, sess_per_user=1, maxsubs=3, extra_behaviours=None, assumptions=(), rule="", delranges=None, maxdel=2, faults=None, p2p=False, root=False, special=False, gates=None, chan=False, e2pub=None):
+                    extra_props=(), nusers=3, sess_per_user=1, maxsubs=3, extra_behaviours=None, assumptions=(), rule="", delranges=None, maxdel=2, faults=None, p2p=False, root=False, special=False, gates=None, chan=False, e2pub=None, suspend=False):
     thorough = ctx.tier == "thorough"
     users, sess, topics = world.population(nusers, sess_per_user, ("g1", "p12") if p2p else ("g1",))
     levels, roots = {}, []
@@ -109,7 +109,8 @@ def run_topic_check(ctx, prop, *, kinds, want, given, maxseq, u1_quick, u1_thoro
     # ---- goal-directed behaviours (trap properties on the as-built model): make the monitors' rare antecedents true
     if len(users) - (1 if root else 0) >= 3 or p2p or "Note" in kinds or "Pub" in kinds:
         gb = world.goal_behaviours(ctx, [u for u in users if u not in levels], {k: v for k, v in sess.items() if k not in roots},
-                                   ["g1", "p12"] if p2p else ["g1"], maxsubs=maxsubs, marks="Note" in kinds, perms="Pub" in kinds)
+                                   ["g1", "p12"] if p2p else ["g1"], maxsubs=maxsubs, marks="Note" in kinds, perms="Pub" in kinds,
+                                   suspend_root=(roots[0] if (suspend and roots) else None))
         for name, b in sorted(gb.items()):
             behs.append(b)
             labels.append("goal:" + name)
